@@ -22,9 +22,9 @@ C16Rtts == UNION {[1..n -> {0, 1, 2, 7}] : n \in 0..4}
 Str(s) == ToJson(s)
 C16All(u) ==
     { Doc("C16/runs/" \o Str([k \in DOMAIN rs |-> [j \in DOMAIN rs[k] |-> rs[k][j].s]]) \o Str([k \in DOMAIN rs |-> [j \in DOMAIN rs[k] |-> rs[k][j].rtt]]),
-          "runs/" \o ToString(Len(rs)), [k \in DOMAIN rs |-> RunOf(rs[k])], <<1, 0, 7, 2>>, FALSE, FALSE, NoDNS, NoNames)
+          "runs/" \o Str([k \in DOMAIN rs |-> [j \in DOMAIN rs[k] |-> rs[k][j].s]]) \o Str([k \in DOMAIN rs |-> [j \in DOMAIN rs[k] |-> rs[k][j].rtt]]), [k \in DOMAIN rs |-> RunOf(rs[k])], <<1, 0, 7, 2>>, FALSE, FALSE, NoDNS, NoNames)
         : rs \in {<<>>} \cup {<<h>> : h \in C16HopSeqs} \cup {<<h1, h2>> : h1 \in RandomSubset(12, C16HopSeqs), h2 \in RandomSubset(6, C16HopSeqs)} }
-    \cup { Doc("C16/rtts/" \o Str(rt), "rtts/len" \o ToString(Len(rt)), <<RunOf(<<Hop(T4, 7, TRUE)>>)>>, rt, FALSE, FALSE, NoDNS, NoNames) : rt \in C16Rtts }
+    \cup { Doc("C16/rtts/" \o Str(rt), "rtts/" \o Str(rt), <<RunOf(<<Hop(T4, 7, TRUE)>>)>>, rt, FALSE, FALSE, NoDNS, NoNames) : rt \in C16Rtts }
 
 \* C17: every private block boundary and its public neighbours, mapped forms, empty hops; with/without enrichment
 AddrSeq == SetToSeq(AllAddrs)
